@@ -52,6 +52,11 @@ def trace_features(trace, verdict):
     f = set(features(trace["cfg"]))
     base, _, k = verdict.partition("@")
     comps = trace["cfg"]["comps"]
+    if base in ("served", "update-raised") and k.isdigit() and 1 <= int(k) <= len(trace["ev"]):
+        e = trace["ev"][int(k) - 1]
+        if 1 <= e["c"] <= len(comps) and any(repeat_below_integ(lk["chain"]) for lk in comps[e["c"] - 1]["ins"]) \
+                and trace["end"]["out"] in ("err:FinamTimeError", "err:TypeError"):
+            f.add("update_pulls_through_repeating_delay_into_integration_adapter")
     if base in ("served", "served-notify") and k.isdigit() and 1 <= int(k) <= len(trace["ev"]):
         e = trace["ev"][int(k) - 1]
         for r in e["log"] + e["nlog"]:
@@ -62,6 +67,11 @@ def trace_features(trace, verdict):
                         and r["err"] == "FinamTimeError":
                     f.add("refused_at_input_of_pull_component_with_several_readers")
     return sorted(f)
+
+
+def repeat_below_integ(chain):
+    ks = [a["k"] for a in chain]
+    return any(ks[i] in ("topush", "topull", "fixed") and "integ" in ks[i + 1:] for i in range(len(ks)))
 
 
 def _run_one(job):
@@ -83,6 +93,50 @@ def _run_one(job):
 def run_configs(jobs, procs=16):
     with mp.Pool(procs) as pool:
         return pool.map(_run_one, jobs, chunksize=25)
+
+
+def random_cfgs(n, rng):
+    """Seeded random acyclic compositions beyond the TLC-enumerated families (thorough tier):
+    3-6 components, steps 1-5 (cyclic sequences of length 1-2), start offsets 0-2, chains of 0-3
+    adapters, pull-based components with a single reader.  Traces only: the monitor decides."""
+    def ad(k, d=0, nn=0, add=0, b=""):
+        return {"k": k, "d": d, "n": nn, "add": add, "b": b or k}
+    atoms = [lambda: ad("pass", b="scale"), lambda: ad("fixed", d=rng.randint(1, 4)),
+             lambda: ad("topull", nn=rng.randint(1, 3), add=rng.randint(0, 2)), lambda: ad("topush"),
+             lambda: ad("buffer", b=rng.choice(["linear", "next", "prev", "step"])),
+             lambda: ad("integ", b=rng.choice(["avg", "sum"]))]
+    out = []
+    while len(out) < n:
+        nc = rng.randint(3, 6)
+        kinds = ["time"] + [("pull" if rng.random() < 0.2 else "time") for _ in range(nc - 2)] + ["time"]
+        comps = []
+        readers = {}
+        for c in range(1, nc + 1):
+            ins = []
+            if c > 1:
+                srcs = [s for s in range(1, c) if rng.random() < 0.45 and not (kinds[s - 1] == "pull" and readers.get(s))]
+                if not srcs or kinds[c - 1] == "pull":
+                    cand = [s for s in range(1, c) if not (kinds[s - 1] == "pull" and readers.get(s))]
+                    srcs = srcs[:1] or [rng.choice(cand)] if cand else []
+                for s in srcs:
+                    readers[s] = readers.get(s, 0) + 1
+                    pool = atoms[:4] if kinds[s - 1] == "pull" else atoms
+                    chain = [rng.choice(pool)() for _ in range(rng.choice([0, 0, 1, 1, 2, 3]))]
+                    while repeat_below_integ(chain):     # known finding C01-repeated-time-at-integration
+                        chain = [rng.choice(pool)() for _ in range(rng.choice([0, 1, 2, 3]))]
+                    ins.append({"src": s, "chain": chain})
+            steps = [rng.randint(1, 5) for _ in range(rng.choice([1, 1, 2]))]
+            comps.append({"kind": kinds[c - 1], "steps": steps if kinds[c - 1] == "time" else [1],
+                          "off": (rng.choice([0, 0, 1, 2]) if kinds[c - 1] == "time" and c > 1 else 0),
+                          "ip": bool(kinds[c - 1] == "time" and ins and rng.random() < 0.3), "ins": ins,
+                          "u": "m", "ws": False})
+        # every pull-based component needs an input and exactly one reader
+        if any(k == "pull" and (not comps[i]["ins"] or readers.get(i + 1, 0) != 1) for i, k in enumerate(kinds)):
+            continue
+        order = list(range(1, nc + 1))
+        rng.shuffle(order)
+        out.append({"comps": comps, "order": order, "end": rng.randint(4, 9), "zone": "dag", "fam": "random", "tb": 1000})
+    return out
 
 
 MC_TMPL = """{spec}
@@ -114,8 +168,9 @@ PLAN = {
                 quick=DAG_Q + ["pullring", "ringbreak", "ring2tail"], thorough=DAG_T + CYC_T,
                 neg=[(["pair"], "countabove", ["NoRefusedPull", "AvailableAtUpdate"]),
                      (["pulltwice"], "depmin", ["NoRefusedPull", "AvailableAtUpdate"])],
-                known_mc=[(["pullfanout"], "intended", ["NoRefusedPull"], "C01-pull-fanout-eviction")],
-                extra_trace=["pullfanout"]),
+                known_mc=[(["pullfanout"], "intended", ["NoRefusedPull"], "C01-pull-fanout-eviction"),
+                          (["repeatinteg"], "intended", ["NoRefusedPull"], "C01-repeated-time-at-integration")],
+                extra_trace=["pullfanout", "repeatinteg"]),
     "C02": dict(inv=[], prop=["OnlyAllowedChoices"], live=False,
                 quick=DAG_Q + ["ring2", "fanin2"], thorough=DAG_T + CYC_T,
                 neg=[(["pairL"], "nocompose", ["OnlyAllowedChoices"])], known_mc=[], extra_trace=[]),
@@ -190,6 +245,9 @@ def check(pid, tier):
             got = rng.sample(got, cap)
             ev.cov["exhaustive"] = False
         cfgs += got
+    if tier == "thorough":
+        cfgs += random_cfgs(4000, rng)
+        ev.cov["exhaustive"] = False
     traces = run_configs([(c, None) for c in cfgs])
     herr = [t for t in traces if "harness_error" in t]
     if herr:
